@@ -838,6 +838,16 @@ class C01(Prop):
             ixs = []
             for d in range(nix):
                 ix, k = mk(d); ixs.append(ix); kinds.append(k)
+            if rank >= 2 and rng.random() < 0.15:
+                # an Ellipsis in place of a run of entries: the indices written after it address the LAST dimensions
+                p = rng.randint(0, len(ixs))
+                q = rng.randint(p, len(ixs))
+                ntail = len(ixs) - q
+                newtail = []
+                for j in range(ntail):
+                    ix, k = mk(rank - ntail + j); newtail.append(ix); kinds.append(k)
+                ixs = ixs[:p] + [["el"]] + newtail
+                kinds.append("ellipsis")
             c["index"] = {"form": "tuple", "ix": ixs}
             c["bare"] = rng.random() < 0.5
         elif form in ("dict", "dict_pos"):
